@@ -2,6 +2,10 @@
 
 package dataset
 
+import "github.com/mimiro-io/datahub/internal/server"
+
+func verifCrashPoint(name string) { server.VerifCrashPoint(name) }
+
 // VerifCompact runs the deduplicating compaction synchronously with the given flush threshold.
 func (c *CompactionWorker) VerifCompact(datasetID string, flushAfter int) error {
 	s := DeduplicationStrategy().(*deduplicationStrategy)
